@@ -4146,6 +4146,27 @@ M('C08', 'pkesk-opaque-ct-in-place', PK, '        ct = _c.get(self._pkalg, None)
   '        ct = _c.get(self._pkalg, OpaqueSignature)\n', 'C08.d')
 T('C08', 'twin-pubkey-cut-local', PK, '        # bound keymaterial to the remaining length of the packet\n        pend = self.header.length - 6\n        self.keymaterial.parse(packet[:pend])\n        del packet[:pend]\n',
   '        rest = self.header.length - 6\n        body = packet[:rest]\n        del packet[:rest]\n        self.keymaterial.parse(body)\n')
+# offset form with one del (twin C05-ref10): reads at integer-linear offsets tile the consumed range; length pairing
+T('C08', 'twin-notation-one-del', SS, '        self.flags = packet[:1]\n        del packet[:4]\n        nlen = self.bytes_to_int(packet[:2])\n        del packet[:2]\n        vlen = self.bytes_to_int(packet[:2])\n        del packet[:2]\n        self.name = packet[:nlen]\n        del packet[:nlen]\n        self.value = packet[:vlen]\n        del packet[:vlen]\n',
+  '        self.flags = packet[:1]\n        nlen = self.bytes_to_int(packet[4:6])\n        vlen = self.bytes_to_int(packet[6:8])\n        name_end = 8 + nlen\n        value_end = name_end + vlen\n        self.name = packet[8:name_end]\n        self.value = packet[name_end:value_end]\n        del packet[:value_end]\n')
+T('C08', 'twin-notation-one-del-inline', SS, '        self.flags = packet[:1]\n        del packet[:4]\n        nlen = self.bytes_to_int(packet[:2])\n        del packet[:2]\n        vlen = self.bytes_to_int(packet[:2])\n        del packet[:2]\n        self.name = packet[:nlen]\n        del packet[:nlen]\n        self.value = packet[:vlen]\n        del packet[:vlen]\n',
+  '        self.flags = packet[:1]\n        nlen = self.bytes_to_int(packet[4:6])\n        vlen = self.bytes_to_int(packet[6:8])\n        self.name = packet[8:8 + nlen]\n        self.value = packet[8 + nlen:8 + nlen + vlen]\n        del packet[:vlen + nlen + 8]\n')
+M('C08', 'notation-one-del-gap', SS, '        self.flags = packet[:1]\n        del packet[:4]\n        nlen = self.bytes_to_int(packet[:2])\n        del packet[:2]\n        vlen = self.bytes_to_int(packet[:2])\n        del packet[:2]\n        self.name = packet[:nlen]\n        del packet[:nlen]\n        self.value = packet[:vlen]\n        del packet[:vlen]\n',
+  '        self.flags = packet[:1]\n        nlen = self.bytes_to_int(packet[4:6])\n        vlen = self.bytes_to_int(packet[6:8])\n        name_end = 8 + nlen\n        value_end = name_end + vlen\n        self.name = packet[8:name_end]\n        self.value = packet[name_end + 1:value_end + 1]\n        del packet[:value_end]\n', 'C08.a')
+M('C08', 'notation-one-del-overlap', SS, '        self.flags = packet[:1]\n        del packet[:4]\n        nlen = self.bytes_to_int(packet[:2])\n        del packet[:2]\n        vlen = self.bytes_to_int(packet[:2])\n        del packet[:2]\n        self.name = packet[:nlen]\n        del packet[:nlen]\n        self.value = packet[:vlen]\n        del packet[:vlen]\n',
+  '        self.flags = packet[:1]\n        nlen = self.bytes_to_int(packet[4:6])\n        vlen = self.bytes_to_int(packet[6:8])\n        name_end = 8 + nlen\n        value_end = name_end + vlen\n        self.name = packet[8:name_end]\n        self.value = packet[name_end - 1:value_end]\n        del packet[:value_end]\n', 'C08.a')
+M('C08', 'notation-one-del-short', SS, '        self.flags = packet[:1]\n        del packet[:4]\n        nlen = self.bytes_to_int(packet[:2])\n        del packet[:2]\n        vlen = self.bytes_to_int(packet[:2])\n        del packet[:2]\n        self.name = packet[:nlen]\n        del packet[:nlen]\n        self.value = packet[:vlen]\n        del packet[:vlen]\n',
+  '        self.flags = packet[:1]\n        nlen = self.bytes_to_int(packet[4:6])\n        vlen = self.bytes_to_int(packet[6:8])\n        name_end = 8 + nlen\n        value_end = name_end + vlen\n        self.name = packet[8:name_end]\n        self.value = packet[name_end:value_end]\n        del packet[:name_end]\n', 'C08.a')
+M('C08', 'notation-one-del-long', SS, '        self.flags = packet[:1]\n        del packet[:4]\n        nlen = self.bytes_to_int(packet[:2])\n        del packet[:2]\n        vlen = self.bytes_to_int(packet[:2])\n        del packet[:2]\n        self.name = packet[:nlen]\n        del packet[:nlen]\n        self.value = packet[:vlen]\n        del packet[:vlen]\n',
+  '        self.flags = packet[:1]\n        nlen = self.bytes_to_int(packet[4:6])\n        vlen = self.bytes_to_int(packet[6:8])\n        name_end = 8 + nlen\n        value_end = name_end + vlen\n        self.name = packet[8:name_end]\n        self.value = packet[name_end:value_end]\n        del packet[:value_end + nlen]\n', 'C08.a')
+M('C08', 'notation-one-del-value-from-6', SS, '        self.flags = packet[:1]\n        del packet[:4]\n        nlen = self.bytes_to_int(packet[:2])\n        del packet[:2]\n        vlen = self.bytes_to_int(packet[:2])\n        del packet[:2]\n        self.name = packet[:nlen]\n        del packet[:nlen]\n        self.value = packet[:vlen]\n        del packet[:vlen]\n',
+  '        self.flags = packet[:1]\n        nlen = self.bytes_to_int(packet[4:6])\n        vlen = self.bytes_to_int(packet[6:8])\n        name_end = 8 + nlen\n        value_end = name_end + vlen\n        self.name = packet[6:6 + nlen]\n        self.value = packet[6 + nlen:6 + nlen + vlen]\n        del packet[:value_end]\n', 'C08.a')
+M('C08', 'notation-one-del-swapped', SS, '        self.flags = packet[:1]\n        del packet[:4]\n        nlen = self.bytes_to_int(packet[:2])\n        del packet[:2]\n        vlen = self.bytes_to_int(packet[:2])\n        del packet[:2]\n        self.name = packet[:nlen]\n        del packet[:nlen]\n        self.value = packet[:vlen]\n        del packet[:vlen]\n',
+  '        self.flags = packet[:1]\n        nlen = self.bytes_to_int(packet[4:6])\n        vlen = self.bytes_to_int(packet[6:8])\n        name_end = 8 + nlen\n        value_end = name_end + vlen\n        self.value = packet[8:8 + vlen]\n        self.name = packet[8 + vlen:value_end]\n        del packet[:value_end]\n', 'C08.c')
+M('C08', 'notation-one-del-lengths-swapped', SS, '        self.flags = packet[:1]\n        del packet[:4]\n        nlen = self.bytes_to_int(packet[:2])\n        del packet[:2]\n        vlen = self.bytes_to_int(packet[:2])\n        del packet[:2]\n        self.name = packet[:nlen]\n        del packet[:nlen]\n        self.value = packet[:vlen]\n        del packet[:vlen]\n',
+  '        self.flags = packet[:1]\n        vlen = self.bytes_to_int(packet[4:6])\n        nlen = self.bytes_to_int(packet[6:8])\n        name_end = 8 + nlen\n        value_end = name_end + vlen\n        self.name = packet[8:name_end]\n        self.value = packet[name_end:value_end]\n        del packet[:value_end]\n', 'C08.c')
+M('C08', 'notation-one-del-hole-consumed', SS, '        self.flags = packet[:1]\n        del packet[:4]\n        nlen = self.bytes_to_int(packet[:2])\n        del packet[:2]\n        vlen = self.bytes_to_int(packet[:2])\n        del packet[:2]\n        self.name = packet[:nlen]\n        del packet[:nlen]\n        self.value = packet[:vlen]\n        del packet[:vlen]\n',
+  '        self.flags = packet[:1]\n        nlen = self.bytes_to_int(packet[4:6])\n        vlen = self.bytes_to_int(packet[6:8])\n        name_end = 8 + nlen\n        value_end = name_end + vlen\n        self.name = packet[8:name_end]\n        self.value = packet[name_end + 1:value_end + 1]\n        del packet[:value_end + 1]\n', 'C08.a')
 # --- end C08 hardening
 M('C09', 'old-tag-shift', PT, "        tag |= (self.tag) if self._lenfmt else ((self.tag << 2) | {1: 0, 2: 1, 4: 2, 0: 3}[self.llen])", "        tag |= (self.tag) if self._lenfmt else ((self.tag << 1) | {1: 0, 2: 1, 4: 2, 0: 3}[self.llen])", 'C09.8')
 M('C09', 'tag-mask-1f', PT, "        _tag = (val & 0x3F) if self._lenfmt else ((val & 0x3C) >> 2)", "        _tag = (val & 0x1F) if self._lenfmt else ((val & 0x3C) >> 2)", 'C09.8')
